@@ -75,8 +75,14 @@ def make_scenario(rnd, counts, nues_choices=None, fault=None, opts=None):
     name = "".join(rnd.choice("ABCDEFGHIJKLMNOPQRSTUVWXYZabcdefghijklmnopqrstuvwxyz0123456789-") for _ in range(name_len))
     k = [rnd.randrange(256) for _ in range(16)]
     op = [rnd.randrange(256) for _ in range(16)]
+    if opts.get("lead0"):
+        # keys whose hexadecimal text begins with zero digits
+        k[0], op[0] = rnd.randrange(16), 0
+        op[1] = rnd.randrange(16)
     use_opc = opts.get("use_opc", rnd.choice([True, False]))
     opc = [rnd.randrange(256) for _ in range(16)] if use_opc else []
+    if opts.get("lead0") and opc:
+        opc[0] = 0
     gtp = [rnd.choice([10, 192, 172]), rnd.randrange(256), rnd.choice([0, 255, rnd.randrange(256)]), rnd.randrange(1, 255)]
     sst = rnd.choice([1, 2, 3, 128])
     sd = [rnd.randrange(256) for _ in range(3)]
